@@ -16,6 +16,7 @@ RULE = ("real DensityEstimation objects driven at their public methods on genera
         "StandardCombi runs followed by combi(points). Oracle: Kronecker hat Gram matrix + lambda I, mean-of-hats right-hand side, "
         "agreement of all hat evaluators, normalisation and proportionality of the returned surpluses, combined interpolant. "
         "distinct = digest(path, grid, data digest); non-trivial = anisotropic or non-uniform grid with >=3 points in a dimension")
+RULE += (" " + 'One operation object is used for several level vectors in a row (permuted level vectors with equal point counts, incl. (4,5)/(5,4) above the 200-point switch); in combination runs the surpluses of every component grid are compared with the reference solution of its own system.')
 REQUIRED = ["R_equals_gram_uniform", "R_equals_gram_dimwise", "R_masslumped", "R_spd", "b_uniform", "b_dimwise",
             "hat_evaluators_agree", "surpluses_match_reference_uniform", "surpluses_match_reference_dimwise",
             "normalisation", "combi_interpolant"]
